@@ -79,7 +79,7 @@ pub fn run_c02(ctx: &Ctx) -> i32 {
 }
 
 pub fn run_c03(ctx: &Ctx) -> i32 {
-    let homes = |k: Kind| matches!(k, Kind::ReplyPresence | Kind::ReplyArgs | Kind::ReplyContent | Kind::EntryPresence | Kind::Panic);
+    let homes = |k: Kind| matches!(k, Kind::ReplyPresence | Kind::ReplyArgs | Kind::ReplyEvents | Kind::ReplyData | Kind::EntryPresence | Kind::Panic);
     control_flow(ctx, &homes, vec!["execute", "instantiate"])
 }
 
@@ -87,7 +87,7 @@ pub fn run_c03(ctx: &Ctx) -> i32 {
 // C04: events and data
 
 pub fn run_c04(ctx: &Ctx) -> i32 {
-    let homes = |k: Kind| matches!(k, Kind::RespEvents | Kind::RespData | Kind::ReplyContent | Kind::Panic);
+    let homes = |k: Kind| matches!(k, Kind::RespEvents | Kind::RespData | Kind::ReplyEvents | Kind::ReplyEventsComposition | Kind::ReplyData | Kind::MultiEvents | Kind::Panic);
     let sampler = Sampler::new(4, ctx.seed);
     let mut st = TreeStats::default();
     let starts = build_starts(ctx, &homes, &mut st);
